@@ -45,3 +45,12 @@ func consumerProjection(c *arrow_record.Consumer) []any {
 }
 
 func producerNext(p *arrow_record.Producer) int { return int(p.VerifNextSchemaID()) }
+
+// consumerIDs: the schema ids the consumer currently has a stream consumer for.
+func consumerIDs(c *arrow_record.Consumer) []string {
+	out := []string{}
+	for _, s := range c.VerifStreams() {
+		out = append(out, s.SchemaID)
+	}
+	return out
+}
